@@ -436,6 +436,85 @@ pub fn c10(ctx: &Ctx, rep: &mut Report) {
         },
         run_c10,
     );
+    // more well-formed Datagram frames in a row than the datagram buffer holds while the application is not taking any:
+    // the surplus is dropped (C11) and the endpoint goes on serving everything else - streams in use, new Connects, frames on
+    // unknown flows - and still ends the connection on an invalid message
+    ctx.enumerate(
+        rep,
+        "datagram-flood",
+        3 * 2 * 2,
+        4,
+        |i| {
+            let (buf, extra) = [(1usize, 3u32), (8, 5), (512, 40)][(i % 3) as usize];
+            let reader = if (i / 3) % 2 == 0 { DgReader::None } else { DgReader::AfterWake(9) };
+            let invalid_after = (i / 6) % 2 == 1;
+            let mut events = vec![];
+            let push = |events: &mut Vec<RawEvent>, when: Trigger, msg: RawMsg| events.push(RawEvent { when, what: What::Inject { from: 1, msg } });
+            for k in 0..buf as u32 + extra {
+                push(&mut events, Trigger::FromStep(8), RawMsg::Datagram { id: k % 5, port: 5, host: b"dh".to_vec(), data: vec![k as u8; (k % 4) as usize] });
+            }
+            // then, at quiescence: data for the stream in use, a frame on an unknown flow, a new Connect, a local open
+            push(&mut events, Trigger::Quiescent, RawMsg::PushDir { id: ID_BY0, stream: 0, dir: 1, off: 0, len: 3 });
+            push(&mut events, Trigger::Quiescent, RawMsg::Push { id: ID_UNKNOWN, len: 1 });
+            push(&mut events, Trigger::Quiescent, RawMsg::Connect { id: ID_PROBE, rwnd: 1, port: 2, host: b"probe".to_vec() });
+            events.push(RawEvent { when: Trigger::Quiescent, what: What::Wake(2) });
+            if invalid_after {
+                push(&mut events, Trigger::Quiescent, RawMsg::Bytes(vec![0x7f, 1, 2, 3, 4]));
+            }
+            Case {
+                opts: [OptsSpec { rwnd: 4, thr: 1, stream_buf: 16, dgram_buf: buf, bind_buf: 0, retries: 1 }, OptsSpec::default()],
+                rng: [vec![ID_BY0, ID_LATE], vec![]],
+                streams: vec![
+                    StreamSpec { side: 0, port: 1, pad: vec![], delay: 0, park: None, ends: [EndScript { w: vec![WOp::Write(2)], r: vec![ROp::Read(64), ROp::Read(64)] }, EndScript::default()] },
+                    StreamSpec { side: 0, port: 1, pad: vec![], delay: 0, park: Some(2), ends: [EndScript { w: vec![WOp::Write(1)], r: vec![ROp::Read(8)] }, EndScript::default()] },
+                ],
+                dg_readers: [reader, DgReader::None],
+                raw: Some(RawPolicy { reject_first: 0, ack_connects: Some(64), ack_every: Some(1), answer_close: true, no_ack_streams: vec![] }),
+                events,
+                ..Case::default()
+            }
+        },
+        |case| {
+            let run = run_case(case);
+            if !run.quiescent {
+                return Outcome::inconclusive("step bound");
+            }
+            let a = Analysis::new(case, &run);
+            let invalid_after = case.events.iter().any(|e| matches!(&e.what, What::Inject { msg: RawMsg::Bytes(_), .. }));
+            let n_dg = case.events.iter().filter(|e| matches!(&e.what, What::Inject { msg: RawMsg::Datagram { .. }, .. })).count();
+            let sent = |pred: &dyn Fn(&RFrame) -> bool| run.events.iter().any(|e| matches!(&e.ev, Ev::Sent { side: 0, msg: WMsg::Frame(f), .. } if pred(f)));
+            macro_rules! v {
+                ($sig:expr, $($arg:tt)*) => { return Outcome::violation($sig, format!("after {n_dg} Datagram frames in a row into a datagram buffer of {} that the application does not drain: {} | tail: {}", case.opts[0].dgram_buf, format!($($arg)*), a.ctx(14))) };
+            }
+            if a.streams[0].ends[0].total_read() != 3 {
+                v!("c10-flood:bystander-data-not-delivered", "3 bytes pushed on the established stream afterwards, its reader got {}", a.streams[0].ends[0].total_read());
+            }
+            if !sent(&|f| matches!(f, RFrame::Reset { id } if *id == ID_UNKNOWN)) {
+                v!("c10-flood:missing-reset", "a Push on an unknown flow was not answered with Reset");
+            }
+            if !sent(&|f| matches!(f, RFrame::Acknowledge { id, .. } if *id == ID_PROBE)) {
+                v!("c10-flood:not-serving", "a new Connect was not acknowledged: the endpoint stopped serving");
+            }
+            if a.streams[1].open_ok_at.is_none() && !invalid_after {
+                v!("c10-flood:local-open-stuck", "a local stream request did not complete ({:?})", a.streams[1].open_err);
+            }
+            let exit = run.events.iter().find_map(|e| if let Ev::TaskExit { side: 0, result } = &e.ev { Some(result.clone()) } else { None });
+            match (invalid_after, exit) {
+                (false, Some(r)) => v!("c10-task-exited", "the connection task ended with {r:?} although every frame was well-formed"),
+                (true, None) => v!("c10-flood:invalid-message-not-noticed", "an invalid message after the burst did not end the connection"),
+                (true, Some(Ok(()))) => v!("c10-invalid-message-not-an-error", "the connection ended without an error after an invalid message"),
+                _ => {}
+            }
+            if invalid_after {
+                let stuck = a.unfinished(|_| false);
+                let stuck: Vec<String> = stuck.into_iter().filter(|n| !n.starts_with("dgread")).collect();
+                if !stuck.is_empty() {
+                    v!("c10-flood:pending-after-invalid", "operations still pending after the connection ended: {stuck:?}");
+                }
+            }
+            Outcome::pass(true, vec!["datagram-flood"])
+        },
+    );
     ctx.prop(
         rep,
         "invalid-messages",
